@@ -174,7 +174,7 @@ def real_soak(tier):
         ("start-failure", "true", {"shell": "/nonexistent/shell"}, "FileNotFoundError"),
         ("stdin", "cat", {"in_stream": "abc"}, "Result"),
         ("idle-pipe", "echo hi", {"in_stream": "idle-pipe"}, "Result"),
-        ("interrupt", "echo hi; sleep 0.2", {"interrupt": True}, "Result"),
+        ("interrupt", "echo hi; sleep 0.2", {"interrupt": True, "warn": True}, "Result"),   # under a pty the forwarded ^C ends the shell
         ("late-join", "echo hi", {"join_delay": 0.3}, "Result"),
         ("with-promise", "echo hi", {"with": True}, "Result"),
         ("disown", "true", {"disown": True}, "None"),
